@@ -3,6 +3,10 @@ EXTENDS Batch, TLC
 F1(n) == {{}} \cup {{i} : i \in 1..n}
 F2(n) == F1(n) \cup {{i, j} : i, j \in 1..n}
 MCSmall == UNION { { [N |-> n, PSize |-> s, W |-> w, Fail |-> f] : s \in 1..3, w \in 1..3, f \in F2(n) } : n \in 0..5 }
+(* every consecutive segmentation (composition) of up to 4 events, not only the code's uniform rule *)
+Compositions(n) == {L \in UNION {[1..k -> 1..n] : k \in 0..n} : LET S[q \in 0..Len(L)] == IF q = 0 THEN 0 ELSE S[q - 1] + L[q] IN S[Len(L)] = n}
+MCSegmented == UNION { { [N |-> n, Lens |-> L, W |-> w, Fail |-> f] : L \in Compositions(n), w \in 1..2, f \in F1(n) } : n \in 1..4 }
+MCSmallAll == MCSmall \cup MCSegmented
 (* the code's real constants: partition_size = 100 *)
 Fs == {{}, {1}, {99}, {100}, {101}, {200}, {450}, {100, 101}, {1, 450}}
 MCRealOk == UNION { { [N |-> n, PSize |-> 100, W |-> w, Fail |-> f] : w \in {1, 2, 4}, f \in {x \in Fs : x \subseteq 1..n} } :
